@@ -46,7 +46,8 @@ def walk_loops(paths):
                 for b in e.extra["paths"]:
                     for x in b.evs:
                         if x.kind == "loop" and x.text in ("W_dirs", "W_files"):
-                            if not any(x.node is y.node for y, _ in inner):
+                            # (the same loop statement can stand for both lists when it sits in an unrolled `for .. in ((True, dirs), (False, files))`)
+                            if not any(x.node is y.node and x.text == y.text for y, _ in inner):
                                 inner.append((x, "dirs" if x.text == "W_dirs" else "files"))
                 out.append((e, inner))
     return out
